@@ -1,0 +1,14 @@
+//go:build verif
+
+package fullrt
+
+// VerifPoint, when set, is called at named points of the accelerated client
+// (between lock acquisitions of readers and of the crawl swap). It exists for
+// the verification harness only and is compiled in with the verif build tag.
+var VerifPoint func(point string)
+
+func verifPoint(point string) {
+	if f := VerifPoint; f != nil {
+		f(point)
+	}
+}
